@@ -183,24 +183,27 @@ structure SplitOut (α : Type) where
   weightLeft : Int
   splitPos : α
   exit : Exit
-  /-- interval and iteration count when the loop returned (for C04's diagnostics) -/
+  /-- interval and iteration count when the loop returned, and whether `max` was ever
+  assigned (ghost outputs: C04's premise and diagnostics; they influence nothing) -/
   lastMin : α
   lastMax : α
+  maxMoved : Bool
   iters : Nat
 deriving DecidableEq, Repr
 
-/-- `recursive_bisection.rs: par_rcb_split`.  `prev = none` is `usize::MAX`. -/
+/-- `recursive_bisection.rs: par_rcb_split`.  `prev = none` is `usize::MAX`; the last
+argument (ghost) records whether `max` has been assigned. -/
 def split (withinTol : Int → Int → Bool) (coord : Nat) (sum : Int) (items : List (Item α)) :
-    Nat → Nat → α → α → Option Nat → Res (SplitOut α)
-  | 0, _, _, _, _ => .fuel
-  | fuel + 1, it, min, max, prev =>
+    Nat → Nat → α → α → Option Nat → Bool → Res (SplitOut α)
+  | 0, _, _, _, _, _ => .fuel
+  | fuel + 1, it, min, max, prev, moved =>
     let t := Coord.half (Coord.add min max)            -- `(min + max) / 2.0`
     let s := scan items coord t
     match s.nearest with
     | none =>
       if prev = some s.count then
-        .ok ⟨items, [], sum, max, .allLeft, min, max, it + 1⟩
-      else split withinTol coord sum items fuel (it + 1) min t (some s.count)
+        .ok ⟨items, [], sum, max, .allLeft, min, max, moved, it + 1⟩
+      else split withinTol coord sum items fuel (it + 1) min t (some s.count) true
     | some (idx, nd) =>
       let exit? : Option Exit :=
         if prev = some s.count then some .plateau
@@ -212,10 +215,11 @@ def split (withinTol : Int → Int → Bool) (coord : Nat) (sum : Int) (items : 
         match reorderSplit items idx coord with
         | .oob => .oob
         | .fuel => .fuel
-        | .ok (l, r) => .ok ⟨l, r, s.wl, t, e, min, max, it + 1⟩
+        | .ok (l, r) => .ok ⟨l, r, s.wl, t, e, min, max, moved, it + 1⟩
       | none =>
-        if s.wl < sum - s.wl then split withinTol coord sum items fuel (it + 1) t max (some s.count)
-        else split withinTol coord sum items fuel (it + 1) min t (some s.count)
+        if s.wl < sum - s.wl then
+          split withinTol coord sum items fuel (it + 1) t max (some s.count) moved
+        else split withinTol coord sum items fuel (it + 1) min t (some s.count) true
 
 /-! ## `rcb_recurse` -/
 
@@ -269,7 +273,7 @@ def recurse (withinTol : Int → Int → Bool) (cfg : Cfg) :
   | k + 1, items, iterId, coord, sum, lo, hi =>
     let min := lo.getD coord Coord.zero
     let max := hi.getD coord Coord.zero
-    match split withinTol coord sum items cfg.fuel 0 min max none with
+    match split withinTol coord sum items cfg.fuel 0 min max none false with
     | .oob => .oob
     | .fuel => .fuel
     | .ok r =>
